@@ -468,7 +468,8 @@ func (p *Program) locW(root ssa.Value, path string, at ssa.Instruction, depth in
 			// a load of a pointer-to-pointer/map/slice location: writes through the loaded value
 			if x.Op == token.MUL && x.X == root {
 				switch x.Type().Underlying().(type) {
-				case *types.Map, *types.Pointer:
+				case *types.Map, *types.Pointer, *types.Slice:
+					// (a slice read back from the location shares its backing array: form.List[i] = v)
 					p.locW(x, path, at, depth+1, out, seen)
 				}
 			}
